@@ -28,12 +28,12 @@ def run(ctx):
         kind, tx, line = rxlib.near_miss_line(rng)
         cases.append((kind, tx, line, True))
     # long runs at a low rate: the forced end-of-message path (135 s timer) and what follows it
-    for j in range(4 if quick else 24):
+    for j in range(5 if quick else 30):
         H = samegen.gen_header(rng, nloc=1)
         H2 = samegen.gen_header(rng, nloc=2)
         tx = rxlib.Tx(rng, H=H, rate=rng.choice([8000] if quick else [8000, 11025]), impaired=False)
         hdr3 = ",".join("B%s,S1" % rxlib.burst_hex(H) for _ in range(3))
-        k = j % 4
+        k = j % 5
         if k == 0:
             script, kind, forbid = "S0.3," + hdr3 + ",S%d,B%s,S4,B%s,S3" % (rng.range(136, 141), rxlib.burst_hex(H2), rxlib.burst_hex(rng.bytes(30))), "timeout-then-lone-bursts", False
         elif k == 1:
@@ -41,8 +41,13 @@ def run(ctx):
             script, kind, forbid = "S0.3,B%s,S1,B%s,S%d" % (rxlib.burst_hex(g), rxlib.burst_hex(g), rng.range(137, 142)), "garbled-pair-then-long-silence", True
         elif k == 2:
             script, kind, forbid = "S0.3," + hdr3 + ",S138," + ",".join("B%s,S1" % rxlib.burst_hex(b"NNNN") for _ in range(3)) + ",S2", "timeout-then-trailer", False
-        else:
+        elif k == 3:
             script, kind, forbid = "S0.3,B%s,S%d,N3:2000,S1" % (rxlib.burst_hex(H), rng.range(136, 140)), "lone-burst-then-long-silence", True
+        else:
+            # the same lone burst twice, far more than the history window apart, with un-framed carrier activity (preamble-only
+            # blips) in between at intervals shorter than the window: the first burst must have been forgotten
+            blips = ",".join("S%.1f,B%s" % (rng.range(60, 90) / 10.0, "ab" * rng.range(18, 24)) for _ in range(rng.range(3, 5)))
+            script, kind, forbid = "S0.3,B%s,%s,S%.1f,B%s,S3" % (rxlib.burst_hex(H), blips, rng.range(20, 90) / 10.0, rxlib.burst_hex(H)), "lone-burst-blips-same-lone-burst", True
         cases.append((kind, tx, tx.line(script=script), forbid))
     res = rxlib.run_rx([c[2] for c in cases])
     dist, mism, nontriv, samples = {}, 0, 0, []
